@@ -228,3 +228,24 @@ func init() {
 		return &ChanV{T: []PtrTarget{{G: tTrue, Obj: o}}}
 	}
 }
+
+// time.NewTicker: a ticker whose channel never delivers inside a harness
+// (periodic housekeeping is outside every claim); Stop/Reset are no-ops.
+func init() {
+	intrinsics["time.NewTicker"] = func(e *Engine, fr *frame, fn *ssa.Function, args []Value, g *Term, pos token.Pos) Value {
+		tt := fn.Signature.Results().At(0).Type().(*types.Pointer).Elem()
+		v := zeroValue(tt).(*StructV)
+		st := tt.Underlying().(*types.Struct)
+		for i := 0; i < st.NumFields(); i++ {
+			if st.Field(i).Name() == "C" {
+				ct := st.Field(i).Type()
+				o := newObject("chan:ticker", ct, nil)
+				o.ch = &ChanData{closed: tFalse, count: c64(0), cap: 1, elemT: ct.Underlying().(*types.Chan).Elem()}
+				v.F[i] = &ChanV{T: []PtrTarget{{G: tTrue, Obj: o}}}
+			}
+		}
+		return ptrTo(newObject("ticker", tt, v))
+	}
+	intrinsics["(*time.Ticker).Stop"] = noop
+	intrinsics["(*time.Ticker).Reset"] = noop
+}
